@@ -14,6 +14,7 @@
 """Dynamic evaluation for hyper primitives."""
 
 import contextlib
+import threading
 import types
 from typing import Any, Callable, Dict, Iterator, List, Optional, Union
 
@@ -159,7 +160,21 @@ class DynamicEvaluationContext:
     self._hyper_dict = symbolic.Dict() if dna_spec is None else None
     self._dna_spec: Optional[geno.DNASpec] = dna_spec
     self._per_thread = per_thread
-    self._decision_getter = None
+    self._decision_getter_tls = threading.local()
+    self._decision_getter_global = None
+
+  @property
+  def _decision_getter(self):
+    if self._per_thread:
+      return getattr(self._decision_getter_tls, 'value', None)
+    return self._decision_getter_global
+
+  @_decision_getter.setter
+  def _decision_getter(self, value):
+    if self._per_thread:
+      self._decision_getter_tls.value = value
+    else:
+      self._decision_getter_global = value
 
   @property
   def per_thread(self) -> bool:
@@ -431,6 +446,7 @@ class DynamicEvaluationContext:
         self._decision_getter_and_evaluation_finalizer(decisions))
 
     has_errors = False
+    outer_decision_getter = self._decision_getter
     with dynamic_evaluate(self.evaluate, per_thread=self._per_thread):
       try:
         # Set decision getter for current decision.
@@ -449,7 +465,7 @@ class DynamicEvaluationContext:
         _dynamic_evaluation_stack.pop(self)
 
         # Reset decisions.
-        self._decision_getter = None
+        self._decision_getter = outer_decision_getter
 
         # Call evaluation finalizer to make sure all decisions are used.
         if not has_errors:
